@@ -159,7 +159,7 @@ def unexpected_stop(stop):
 def generic_run(pid, params, knobs=None, policy='complete', plan_kw=None,
                 modes=('none', 'sched', 'lossy'), monitors=None,
                 end_check=None, probe_key=None, world_cfg=None, opts=None,
-                prog_hook=None, own_rules=None):
+                prog_hook=None, own_rules=None, lifecycle=None):
     """Run one E1 case with the standard monitors; returns the driver dict.
 
     probe_key: name of the probe that makes a run non-trivial for ``pid``.
@@ -190,7 +190,7 @@ def generic_run(pid, params, knobs=None, policy='complete', plan_kw=None,
         o['holdcp'] = case.prog.pstr(case.prog.hold)
     mons = [LaunchMonitor(), InvariantMonitor(relaxed=(mode == 'lossy'))]
     mons += list(monitors or [])
-    res = run_case(case, monitors=mons)
+    res = run_case(case, monitors=mons, lifecycle=lifecycle)
     if res.error:
         return {'error': res.error, 'violations': [], 'stats': {}}
     preds = {}
